@@ -102,6 +102,15 @@ class JSONData(ABC):
         """
         return self._data
 
+    def __eq__(self, other):
+        # blobs are equal when they carry the same JSON value
+        if not isinstance(other, JSONData):
+            return False
+        return self.data == other.data
+
+    def __hash__(self):
+        return hash(json.dumps(self.data, sort_keys=True))
+
     def __str__(self):
         return str(self._data)
 
